@@ -23,6 +23,12 @@ EXPLANATION = ('seven of the documented rules (required name/type -> error; unsp
                'traversal are decided by the bounded stand-in, which compares with an independent evaluator')
 from props.common import HEAP_ASSUMPTIONS as ASSUMPTIONS   # noqa: E402
 
+def extra_obligations(prog):
+    # a rule that keeps state between calls (module-level table, mutable default) reports by history, not by content
+    from props import frames
+    return frames.rules_stateless(prog)
+
+
 def bounded_jobs(tier, seed):
     return [
         bj('rcc.b_C08', 'run_rules', tier, seed),
